@@ -5,8 +5,20 @@ import time
 from harness import pool, sandbox, trace, xl
 
 
-def formula_for(c, refs, fail, mode, via_range, long_pad=False):
-    """cell c (1-based, address A<c>) : = w(c) + refs...;  fail: own formula raises first"""
+def mention(k, style):
+    """how cell A<k> is mentioned: plainly, inside a lazily evaluated argument, or more than once (value-neutral)"""
+    if style == 1:
+        return f'IF(TRUE,A{k},0)'
+    if style == 2:
+        return f'A{k}+(A{k}-$A${k})'
+    if style == 3:
+        return f'IF(A{k}<0,0,A{k})'
+    return f'A{k}'
+
+
+def formula_for(c, refs, fail, mode, via_range, long_pad=False, style=0):
+    """cell c (1-based, address A<c>) : = w(c) + refs...;  fail: own formula raises first.
+    style 4: a never-stored cell is mentioned twice as well (it is blank: value-neutral, and no cycle)"""
     parts = []
     if fail:
         parts.append('NOSUCHFUNC(1)' if mode == 0 else 'VLOOKUP(1,Z1:Z2,1,TRUE)')
@@ -19,15 +31,17 @@ def formula_for(c, refs, fail, mode, via_range, long_pad=False):
             parts.append(f'SUM(A{refs[i]}:A{refs[i + 1]})')
             i += 2
         else:
-            parts.append(f'A{refs[i]}')
+            parts.append(mention(refs[i], style))
             i += 1
+    if style == 4:
+        parts.append('Z9+$Z$9')
     return '=' + '+'.join(parts)
 
 
-def evaluate_graph(refs, fail, entry, mode=0, via_range=False, long_pad=False, shared=None):
+def evaluate_graph(refs, fail, entry, mode=0, via_range=False, long_pad=False, shared=None, style=0):
     def fn():
         L = xl.lib()
-        d = {f'Sheet1!A{c}': formula_for(c, refs[c - 1], fail[c - 1], mode, via_range, long_pad) for c in range(1, len(refs) + 1)}
+        d = {f'Sheet1!A{c}': formula_for(c, refs[c - 1], fail[c - 1], mode, via_range, long_pad, style) for c in range(1, len(refs) + 1)}
         t = time.process_time()
         try:
             if shared is not None and 'ev' in shared:
@@ -90,7 +104,8 @@ def graph_worker(blocks):
         st = b if isinstance(b, dict) else pool.parse_block(b)
         refs, fail, entry, exp, val = st['refs'], st['fail'], st['entry'], st['outcome'], st['val']
         h = hash((str(refs), entry)) & 0xffff
-        obs = evaluate_graph(refs, fail, entry, mode=h % 2, via_range=(h >> 1) % 2 == 0, long_pad=(h >> 2) % 8 == 0)
+        style = (h >> 5) % 5
+        obs = evaluate_graph(refs, fail, entry, mode=h % 2, via_range=(h >> 1) % 2 == 0, long_pad=(h >> 2) % 8 == 0, style=style)
         out['n'] += 1
         out['outcomes'][exp] = out['outcomes'].get(exp, 0) + 1
         ok = outcome_ok(refs, fail, entry, exp, val, obs)
@@ -99,7 +114,8 @@ def graph_worker(blocks):
         if not ok:
             cyc = exp == 'cycle'
             out['dis'].append({'case': {'refs': refs, 'fail': fail, 'entry': entry,
-                                        'formulas': {f'A{c}': formula_for(c, refs[c - 1], fail[c - 1], h % 2, (h >> 1) % 2 == 0) for c in range(1, len(refs) + 1)}},
+                                        'style': style, 'mode': h % 2, 'via_range': (h >> 1) % 2 == 0,
+                                        'formulas': {f'A{c}': formula_for(c, refs[c - 1], fail[c - 1], h % 2, (h >> 1) % 2 == 0, False, style) for c in range(1, len(refs) + 1)}},
                                'exp': {'outcome': exp, 'val': val}, 'obs': {k: obs[k] for k in obs if k != 'abs'},
                                'features': {'expected': exp, 'observed': obs['outcome'], 'self_loop': cyc and entry in refs[entry - 1],
                                             'ncells': len(refs)}})
@@ -119,7 +135,7 @@ def shared_worker(groups):
             seq = order if rounds == 0 else order[::-1]
             for entry in seq:
                 exp, val = entries[entry]
-                obs = evaluate_graph(refs, fail, entry, mode=h % 2, via_range=(h >> 1) % 2 == 0, shared=shared)
+                obs = evaluate_graph(refs, fail, entry, mode=h % 2, via_range=(h >> 1) % 2 == 0, shared=shared, style=(h >> 5) % 5)
                 out['n'] += 1
                 ok = outcome_ok(refs, fail, entry, exp, val, obs)
                 if not ok:
@@ -130,7 +146,8 @@ def shared_worker(groups):
     return out
 
 
-def chain_event(depth, leaf):
+def chain_event(depth, leaf, lazy=False):
+    """lazy: every link mentions its predecessor inside arguments of IF (evaluated on demand)"""
     flen = [0]
 
     def fn():
@@ -138,7 +155,8 @@ def chain_event(depth, leaf):
         pad = '+LEN("' + 'y' * 1500 + '")*0' if depth % 3 == 1 else ''
         d = {'Sheet1!A1': {'valid': '=1', 'unknown': '=NOSUCHFUNC(1)', 'python': '=VLOOKUP(1,Z1:Z2,1,TRUE)'}[leaf] + pad}
         for i in range(2, depth + 1):
-            d[f'Sheet1!A{i}'] = f'=A{i - 1}+1' if i % 3 else f'=SUM(A{i - 1}:A{i - 1})+1'
+            d[f'Sheet1!A{i}'] = (f'=SUM(A{i - 1}:A{i - 1})+1' if i % 3 == 0 else f'=A{i - 1}+1') if not lazy else \
+                (f'=IF(A{i - 1}>0,A{i - 1},0)+1' if i % 2 else f'=IF(TRUE,A{i - 1})+1')
         flen[0] = max(len(x) for x in d.values())
         model = L.ModelCompiler().read_and_parse_dict(d)
         ev = L.Evaluator(model)
@@ -160,7 +178,7 @@ def chain_event(depth, leaf):
 
 
 def chain_worker(items):
-    return [chain_event(d, leaf) for d, leaf in items]
+    return [chain_event(*it) for it in items]
 
 
 def seeded_graphs(seed, count):
@@ -188,7 +206,7 @@ def seeded_worker(items):
     evs = []
     for g in items:
         h = hash(str(g['refs'])) & 0xffff
-        obs = evaluate_graph(g['refs'], g['fail'], g['entry'], mode=h % 2, via_range=h % 3 == 0)
+        obs = evaluate_graph(g['refs'], g['fail'], g['entry'], mode=h % 2, via_range=h % 3 == 0, style=(h >> 5) % 5)
         evs.append({'kind': 'graph', 'refs': g['refs'], 'fail': g['fail'], 'entry': g['entry'],
                     'outcome': obs['outcome'], 'val': obs.get('val', 0), 'cpu_ms': obs.get('cpu_ms', 0)})
     return evs
@@ -244,7 +262,7 @@ def run(run):
         raise xl.MachineryError(f'vacuous instance: {outcomes}')
     # code -> spec: chains (message / time bounds) and seeded larger graphs, validated by TLC (Trace_C06)
     depths = [1, 2, 4, 8, 16, 32, 64, 100, 128, 200] + ([] if quick else [256, 400, 512])
-    items = [(d, leaf) for d in depths for leaf in ('valid', 'unknown', 'python')]
+    items = [(d, leaf, lazy) for d in depths for leaf in ('valid', 'unknown', 'python') for lazy in (False, True)]
     events = [e for part in pool.pmap(chain_worker, items, nchunks=len(items)) for e in part]
     events += [e for part in pool.pmap(seeded_worker, seeded_graphs(run.seed, 1500 if quick else 15000)) for e in part]
     run.evaluations += len(events)
@@ -266,7 +284,7 @@ def replay(path):
     d = json.load(open(path))
     c = d['case']
     if 'refs' in c:
-        obs = evaluate_graph(c['refs'], c['fail'], c['entry'])
+        obs = evaluate_graph(c['refs'], c['fail'], c['entry'], mode=c.get('mode', 0), via_range=c.get('via_range', False), style=c.get('style', 0))
         print('case', c, '\nexpected', d['expected'], '\nobserved', {k: v for k, v in obs.items() if k != 'abs'})
         if obs['outcome'] != d['expected'].get('outcome') if isinstance(d['expected'], dict) else True:
             print(f"VIOLATION property=C06 replay={path}")
